@@ -17,7 +17,10 @@ import (
 	"github.com/trustbloc/sidetree-core-go/pkg/docutil"
 )
 
-const jsonPatchAddTemplate = `{ "op": "add", "path": "/%s", "value": %s }`
+const jsonPatchAddTemplate = `{ "op": "add", "path": %s, "value": %s }`
+
+// jsonPointerEscaper escapes a property name for use as a JSON pointer reference token (RFC 6901).
+var jsonPointerEscaper = strings.NewReplacer("~", "~0", "/", "~1") //nolint:gochecknoglobals
 
 // Action defines action of document patch.
 type Action string
@@ -119,7 +122,13 @@ func PatchesFromDocument(doc string) ([]Patch, error) {
 		case document.AlsoKnownAs:
 			docPatch, err = NewAddAlsoKnownAs(string(jsonBytes))
 		default:
-			jsonPatches = append(jsonPatches, fmt.Sprintf(jsonPatchAddTemplate, key, string(jsonBytes)))
+			// the property name becomes a JSON pointer inside a JSON string: escape it for both
+			pathBytes, e := json.Marshal("/" + jsonPointerEscaper.Replace(key))
+			if e != nil {
+				return nil, e
+			}
+
+			jsonPatches = append(jsonPatches, fmt.Sprintf(jsonPatchAddTemplate, string(pathBytes), string(jsonBytes)))
 		}
 
 		if err != nil {
